@@ -16,7 +16,9 @@ RULE = (
     'variables incl. ".." and deeper targets, _path-less dictionaries that '
     'list every variable, nested _path dictionaries) x process placed at '
     'depth 0, 1, 2; one port over the full grammar, two and three ports '
-    'over a reduced grammar incl. several ports / variables on one node. '
+    'over a reduced grammar incl. several ports / variables on one node; '
+    'plus worlds in which a wired store is deleted and re-created within '
+    'one tick. '
     'Per shape: one read execution, one write execution per declared '
     'variable and one for all variables at once. Oracle: reference '
     'resolver written from the documentation; read == node value; write '
@@ -179,15 +181,54 @@ def all_shapes(ctx):
     return out
 
 
+def replaced_store_worlds(acc):
+    """A store the process is wired to is deleted and re-created within
+    one tick by two other processes: the process must read the node its
+    updates go to (the new one)."""
+    from vmc.props import C07
+    for label, spec in C07.special_worlds():
+        if not label.startswith('replace-store'):
+            continue
+        case = {'shape': None, 'run': label}
+        ex = worlds.execute(spec)
+        acc.case(key=('replace', label), outcome='replace-store')
+        if ex.error:
+            acc.violate(fw.violation(
+                'C06.crash', f'replace:{type(ex.error[2]).__name__}',
+                f'{label}: unexpected {ex.error[2]!r}', case))
+            continue
+        C07.check_trace(
+            ex, 'obs', spec['processes']['obs']['schema'],
+            spec['topology']['obs'], (),
+            lambda rule, fp, msg: acc.violate(fw.violation(
+                'C06.read', 'reads-a-node-other-than-the-one-it-writes',
+                msg, case)))
+        # every returned +1 lands on the node that is in the hierarchy
+        rows = worlds.history_rows(ex)
+        vals = [r[2]['X']['a']['v'] for r in rows]
+        for before, after in zip(vals, vals[1:]):
+            if after not in (before + 1, 77):
+                acc.violate(fw.violation(
+                    'C06.write', 'update-missed-the-wired-node',
+                    f'{label}: X/a/v went {vals}', case))
+                break
+
+
 def run_job(shape, acc):
+    if shape == 'replaced-store':
+        replaced_store_worlds(acc)
+        return
     check_shape(shape, acc)
 
 
 def run(ctx):
-    return ctx.map(run_job, all_shapes(ctx))
+    return ctx.map(run_job, all_shapes(ctx) + ['replaced-store'])
 
 
 def replay(case):
     acc = fw.Acc()
-    check_shape(case['shape'], acc)
+    if case['shape'] is None:
+        replaced_store_worlds(acc)
+    else:
+        check_shape(case['shape'], acc)
     return [v for exs in acc.viol_examples.values() for v in exs]
